@@ -36,6 +36,12 @@ def single_edits(h: str, per_pos=3):
             if s != c and s not in seen:
                 seen.add(s)
                 yield "subst", i, h[:i] + s + h[i + 1 :]
+    # whole-token edits: drop / empty / duplicate every maximal run of field characters
+    for mt in re.finditer(r"[A-Za-z0-9./+-]+", h):
+        a, b = mt.span()
+        if b - a > 1:
+            yield "drop-token", a, h[:a] + h[b:]
+            yield "dup-token", a, h[:b] + h[a:b] + h[b:]
     yield "append", len(h), h + (h[-1] if h else "x")
     yield "append", len(h), h + "$"
     yield "empty", 0, ""
@@ -48,7 +54,7 @@ def mutants(draw, h: str, max_edits=2):
     m = h
     labels = []
     for _ in range(n):
-        op = draw(st.sampled_from(["subst", "subst-odd", "delete", "insert", "dup", "swap-fields", "number", "case", "truncate", "sep-dup", "sep-drop", "ident"]))
+        op = draw(st.sampled_from(["subst", "subst-odd", "delete", "insert", "dup", "swap-fields", "number", "case", "truncate", "sep-dup", "sep-drop", "ident", "drop-token"]))
         L = len(m)
         if op == "subst" and L:
             i = draw(st.integers(0, L - 1))
@@ -105,6 +111,11 @@ def mutants(draw, h: str, max_edits=2):
             if seps:
                 i = draw(st.sampled_from(seps))
                 m = m[:i] + m[i + 1 :]
+        elif op == "drop-token":
+            toks = list(re.finditer(r"[A-Za-z0-9./+-]+", m))
+            if toks:
+                t = draw(st.sampled_from(toks))
+                m = m[: t.start()] + m[t.end() :]
         elif op == "ident":
             m = draw(st.sampled_from(["$2a$", "$2b$", "$2y$", "$2x$", "$2$", "$1$", "$5$", "$6$", "$P$", "$H$", "{CRYPT}", "$7$", "$scrypt$", "$pbkdf2$", "bcrypt$", ""])) + m[draw(st.integers(0, min(L, 8))) :]
         labels.append(op)
